@@ -250,7 +250,8 @@ Theorem C18_source_text_is_modelled :
    clean_staple_load_error_aborts = false /\ clean_crt_errors_abort = [true; true; true] /\
    clean_folder_delete_error_aborts = true /\ clean_list_errors_abort = [true; false; false; false] /\
    clean_pem_type = [67; 69; 82; 84; 73; 70; 73; 67; 65; 84; 69]%N (* "CERTIFICATE" *) /\
-   clean_folder_empty_cmp = CmpEq /\ clean_folder_guard = true).
+   clean_folder_empty_cmp = CmpEq /\ clean_folder_guard = true /\
+   clean_expires_trunc = second /\ clean_expires_add = second).
 Proof. split; [exact consts_ok | exact consts_shape_ok]. Qed.
 Print Assumptions C18_source_text_is_modelled.
 
@@ -443,6 +444,20 @@ Example ex_foreign_writer_calls :
   = [(0, true); (3, true); (3, true); (3, true); (2, true); (5, true); (5, true); (5, true);
      (3, true); (4, true); (5, true); (6, true); (1, true)]%N.
 Proof. vm_compute. reflexivity. Qed.
+
+(** C18_interference_deletes_warranted is not vacuous: the history of a cleaning (here in the
+    honest world, W = the model's storage) contains Deletes -- a stale staple, the three assets of
+    the expired certificate, the emptied site folder -- and each is warranted *)
+Definition ex_opts1 : opts := Opts 0 true true (30 * day) (s2k "me").
+Definition ex_hist : hist :=
+  fst (wrun st (exec ex_env) (clean_locked_prog ex_opts1 T)
+            (St ((s2k "ocsp/a-stale", File 11 (stp (T - day))) :: ex_fs_store) []) []).
+Definition is_delete (x : act * resp) : bool := match fst x with ADelete _ => true | _ => false end.
+Example ex_history_has_deletes :
+  List.length (filter is_delete ex_hist) = 5%nat /\ List.length ex_hist = 16%nat.
+Proof. vm_compute. split; reflexivity. Qed.
+Example ex_history_warranted : all_warranted ex_opts1 T ex_hist.
+Proof. exact (deletes_warranted ex_opts1 T st (exec ex_env) _). Qed.
 
 (** ** Limits, stated: a NEGATIVE grace period makes the comparison
     [time.Since(expiresAt) >= grace] true for certificates that are not expired yet; the
